@@ -33,8 +33,8 @@ pub fn hist_json(h: &[Op], alpha: &[Rec]) -> Value {
         .iter()
         .map(|op| match op {
             Op::Reset => json!({"op":"reset"}),
-            Op::Parse(i) => json!({"op":"parse_record","type":alpha[*i].ty,"data":hexs(&alpha[*i].data)}),
-            Op::NoCopy(i) => json!({"op":"parse_record_nocopy","type":alpha[*i].ty,"data":hexs(&alpha[*i].data)}),
+            Op::Parse(i) => json!({"op":"parse_record","type":alpha[*i].ty,"version":alpha[*i].ver,"data":hexs(&alpha[*i].data)}),
+            Op::NoCopy(i) => json!({"op":"parse_record_nocopy","type":alpha[*i].ty,"version":alpha[*i].ver,"data":hexs(&alpha[*i].data)}),
         })
         .collect::<Vec<_>>())
 }
@@ -183,7 +183,7 @@ pub fn explore(run: &Run, sc: &Scenario, sink: &mut Sink) -> Explored {
 }
 
 pub fn rec(ty: u8, data: &[u8]) -> Rec {
-    Rec { ty, data: data.to_vec() }
+    Rec { ty, data: data.to_vec(), ver: 0x0303 }
 }
 
 pub fn s0(depth: usize) -> Scenario {
@@ -454,3 +454,41 @@ pub fn s2(sink: &mut Sink, frag: usize, thorough: bool) -> (usize, usize) {
     (histories, steps)
 }
 
+
+/// S4: hand-built raw records longer than any record on the wire (the fields of TlsRawRecord are public):
+/// a first fragment of about 10 MiB is buffered as it is; what follows must be refused or appended
+/// exactly as the reference says, without panic or arithmetic overflow. Returns (histories, steps).
+pub fn s4(sink: &mut Sink) -> (usize, usize) {
+    let mut histories = 0;
+    let mut steps = 0;
+    OVERSIZE_RECORDS.with(|o| o.set(true));
+    for first_len in [MAX_DATA - 2, MAX_DATA - 1, MAX_DATA, MAX_DATA + 1, 70000] {
+        let mut first = vec![0x01, 0xff, 0xff, 0xff];
+        first.resize(first_len, 0x11);
+        let alpha = vec![
+            Rec { ty: 0x16, data: first, ver: 0x0303 },
+            rec(0x16, &[]),
+            rec(0x16, &[0x22]),
+            rec(0x16, &[0x33; 5]),
+            rec(0x17, &[1, 2, 3]),
+            rec(0x16, &[0x0e, 0, 0, 0]),
+        ];
+        for tail in [vec![Op::Parse(1), Op::Parse(2), Op::Parse(3)], vec![Op::Parse(3), Op::Parse(2)], vec![Op::Parse(2), Op::NoCopy(5), Op::Parse(4), Op::Parse(1)]] {
+            let mut ops = vec![Op::Parse(0)];
+            ops.extend(tail);
+            ops.extend([Op::Reset, Op::Parse(5)]);
+            histories += 1;
+            steps += ops.len();
+            sink.evals += ops.len() as u64;
+            if let Some((n, m)) = run_history(&alpha, &ops) {
+                sink.violation(
+                    format!("S4 first={} op {}", first_len, n),
+                    format!("[S4 oversize first fragment of {} bytes] operation {} ({:.40}): {}", first_len, n, op_str(&ops[n], &alpha), m),
+                    json!({"kind":"oversize","first_len":first_len}),
+                );
+            }
+        }
+    }
+    OVERSIZE_RECORDS.with(|o| o.set(false));
+    (histories, steps)
+}
